@@ -19,6 +19,7 @@ import (
 func main() {
 	repo := flag.String("repo", "/repo", "root of the fundraising repository")
 	out := flag.String("out", "", "Lean file to write (default: stdout)")
+	code := flag.String("code", "", "directory to write the GoLite translation of the unit table to (Generated/Code/<Group>.lean)")
 	flag.BoolVar(&debugRanges, "debug-ranges", false, "print (stderr) how every range statement was resolved")
 	flag.Parse()
 
@@ -65,6 +66,22 @@ func main() {
 	t.CliCmds = w.cliCmds()
 	t.Rpcs = w.rpcs()
 	t.SourceFiles = w.hashes
+
+	if *code != "" {
+		for _, p := range []string{keeperP, typesP} {
+			if err := w.load(w.mustPkg(p)); err != nil {
+				fatalf("%v", err)
+			}
+		}
+		if err := os.MkdirAll(*code, 0o755); err != nil {
+			fatalf("%v", err)
+		}
+		for g, text := range w.translateUnits() {
+			if err := os.WriteFile(filepath.Join(*code, g+".lean"), []byte(text), 0o644); err != nil {
+				fatalf("%v", err)
+			}
+		}
+	}
 
 	text := t.Lean()
 	if *out == "" {
